@@ -19,9 +19,11 @@ class VmIo:
             case IoOp.REGISTER:
                 self._unnamed.append(self._reg.get_by_enum(inst.param1))
             case IoOp.PRINT:
+                # The most recent value is this statement's. Older ones
+                # belong to a printf whose parameters are still being
+                # evaluated, by a call that led here.
                 if len(self._unnamed) > 0:
-                    output.out(self._unnamed[0])
-                    self._unnamed.clear()
+                    output.out(self._unnamed.pop())
             case IoOp.PRINT_END:
                 output.newline()
             case IoOp.PRINTF:
@@ -44,8 +46,11 @@ class VmIo:
     def _printf(self, inst, output):
         format_str = inst.param1.replace('\\n', '\n')
         named = {}
+        num_unnamed = 0
         for field in string.Formatter().parse(format_str):
             name = field[1]
+            if name is not None and (len(name) == 0 or name.isdecimal()):
+                num_unnamed += 1
             if name is not None and len(name) > 0 and not name.isdecimal():
                 # A variable first: it may be called "name", "power", "Hue"
                 # or anything else that also spells a register of the VM.
@@ -55,5 +60,9 @@ class VmIo:
                     if reg is not None:
                         value = self._reg.get_by_enum(reg)
                 named[name] = value
-        output.out(format_str.format(*self._unnamed, **named))
-        self._unnamed.clear()
+        # Only this statement's own values, as many as the compiler generated
+        # for it; see PRINT above.
+        first = max(len(self._unnamed) - num_unnamed, 0)
+        unnamed = self._unnamed[first:]
+        del self._unnamed[first:]
+        output.out(format_str.format(*unnamed, **named))
